@@ -139,7 +139,10 @@ def rule_y1(chk: Check, ci) -> None:
         par = gi.reach([gi.entry.id], blocked_edges=blocked, follow=normal_only)
         oku = gi.exit.id not in par
     assigns = [st for st in walk(init.node) if isinstance(st, ast.Assign) and any(dotted(t) == "self.upstream" for t in st.targets)]
-    oku = oku and len(assigns) == 1 and isinstance(assigns[0].value, ast.Call) and method_call(assigns[0].value) and method_call(assigns[0].value)[1] == "rstrip" and dotted(method_call(assigns[0].value)[0]) == init.params[1]
+    from .common import resolve_simple
+
+    av = resolve_simple(chk.proj, ci, init, assigns[0].value) if len(assigns) == 1 else None
+    oku = oku and len(assigns) == 1 and isinstance(av, ast.Call) and method_call(av) and method_call(av)[1] == "rstrip" and dotted(method_call(av)[0]) == init.params[1]
     others = [m for m in ci.methods.values() if m is not init for st in walk(m.node) if isinstance(st, (ast.Assign, ast.AugAssign)) and any(dotted(t) == "self.upstream" for t in (st.targets if isinstance(st, ast.Assign) else [st.target]))]
     oku = oku and not others
     if not oku:
@@ -247,9 +250,12 @@ def rule_y3_y4(chk: Check, ci) -> None:
     chk.ob("Y4", f"{fi.key}: one fetch, redirects not followed", ok and not other_net)
     init = ci.methods["__init__"]
     mk = [st for m in ci.methods.values() for st in walk(m.node) if isinstance(st, ast.Assign) and any(dotted(t) == "self._client" for t in st.targets)]
-    okc = len(mk) == 1 and any(st is mk[0] for st in walk(init.node)) and isinstance(mk[0].value, ast.Call) and (dotted(mk[0].value.func) or "").split(".")[-1] == "GeminiClient"
+    from .common import resolve_simple as _rs
+
+    cv = _rs(chk.proj, ci, init, mk[0].value) if len(mk) == 1 else None
+    okc = len(mk) == 1 and any(st is mk[0] for st in walk(init.node)) and isinstance(cv, ast.Call) and (dotted(cv.func) or "").split(".")[-1] == "GeminiClient"
     if okc:
-        t = kwarg(mk[0].value, "timeout")
+        t = kwarg(cv, "timeout")
         okc = t is not None and dotted(t) == "timeout"
     if not okc:
         chk.finding("Y4", init.key, "client-construction", "the upstream client is not constructed exactly once in __init__ with the location's timeout", init.loc())
